@@ -1,15 +1,17 @@
 #!/bin/sh
 # usage: tools/mutants.sh [PROP...]  - applies each /verif/mutants/<PROP>-*.patch to /repo in turn,
-# runs the quick check, expects exit 1 (VIOLATION). /repo is restored after each.
+# runs the quick check, expects exit 1 (VIOLATION). The tree is restored after each.
+# VERIF_REPO=<scratch worktree> keeps /repo untouched; WORKERS=n limits the engine's workers.
 cd "$(dirname "$0")/.."
+R=${VERIF_REPO:-/repo}
 props="$*"
 [ -z "$props" ] && props=$(ls mutants/*.patch | sed 's#mutants/##; s#-.*##' | sort -u)
 for p in $props; do
   for m in mutants/$p-*.patch; do
     [ -f "$m" ] || continue
-    if ! git -C /repo apply "$PWD/$m" 2>/dev/null; then echo "$m: DOES-NOT-APPLY"; continue; fi
-    out=$(timeout 1500 ./bin/vcheck run --prop $p --tier ${TIER:-quick} --no-evidence 2>&1); rc=$?
-    git -C /repo checkout -- .
+    if ! git -C $R apply "$PWD/$m" 2>/dev/null; then echo "$m: DOES-NOT-APPLY"; continue; fi
+    out=$(timeout 1500 ./bin/vcheck run --repo $R ${WORKERS:+--workers $WORKERS} --prop $p --tier ${TIER:-quick} --no-evidence 2>&1); rc=$?
+    git -C $R checkout -- .
     v=$(echo "$out" | grep -c '^VIOLATION')
     echo "$m: exit=$rc violations=$v $(echo "$out" | grep '^SUMMARY' | sed 's/.*wall_s=\([0-9.]*\).*/wall=\1s/') $(echo "$out" | grep '^INCONCLUSIVE' | head -1 | cut -c1-160)"
   done
